@@ -234,6 +234,11 @@ func (g *gate) quiesce(ths []*thread) {
 				all = false
 			}
 		}
+		for _, og := range pendingObservers() {
+			if !bl[og] {
+				all = false // an abandoned observation got its lock and is finishing: a writer may be waiting for it
+			}
+		}
 		if all {
 			confirm++
 			// a thread that was already seen blocked and still is after somebody's step needs no
@@ -503,13 +508,42 @@ func (s *gatedStream) Close() { s.g.enter(); s.closed.Store(true) }
 // guarded runs an observation that may need a lock of the code under test.  If the observer ends
 // up parked in such a lock (a thread was stopped inside a critical section) the observation is
 // abandoned: (zero, false).  The abandoned goroutine finishes by itself once the lock is free.
+// observers: abandoned observations that are still waiting for a lock of the code under test.
+// When that lock is released they run before the next writer gets it, so the scheduler must let
+// them finish before it judges whether a thread is still blocked.
+var observers struct {
+	mu   sync.Mutex
+	live map[uint64]bool
+}
+
+func pendingObservers() []uint64 {
+	observers.mu.Lock()
+	defer observers.mu.Unlock()
+	var r []uint64
+	for g := range observers.live {
+		r = append(r, g)
+	}
+	return r
+}
+
 func guarded[T any](f func() T) (T, bool) {
 	type res struct{ v T }
 	ch := make(chan res, 1)
 	gidc := make(chan uint64, 1)
 	go func() {
-		gidc <- goid()
-		ch <- res{f()}
+		me := goid()
+		observers.mu.Lock()
+		if observers.live == nil {
+			observers.live = map[uint64]bool{}
+		}
+		observers.live[me] = true
+		observers.mu.Unlock()
+		gidc <- me
+		v := f()
+		observers.mu.Lock()
+		delete(observers.live, me)
+		observers.mu.Unlock()
+		ch <- res{v}
 	}()
 	gid := <-gidc
 	confirm := 0
